@@ -10,7 +10,7 @@ use defset::{Defset, DefsetId};
 use ecow::EcoString;
 use id_arena::Arena;
 
-use multiclass::{Multiclass, MulticlassId};
+use multiclass::{Multiclass, MulticlassId, RecordName};
 use record::{Record, RecordId, RecordKind};
 use record_field::{RecordField, RecordFieldId};
 use symbol::{Symbol, SymbolId, SymbolMut};
@@ -30,6 +30,13 @@ pub mod template_arg;
 pub mod typ;
 pub mod variable;
 
+/// How a name is related to the records that the defms define.
+#[derive(Debug, Clone, Copy, Eq, PartialEq)]
+pub enum DefmRecordName {
+    Whole,
+    Beginning(usize),
+}
+
 #[derive(Debug, Default, Eq, PartialEq)]
 pub struct SymbolMap {
     record_list: Arena<Record>,
@@ -45,7 +52,9 @@ pub struct SymbolMap {
     name_to_multiclass: HashMap<EcoString, MulticlassId>,
     name_to_defset: HashMap<EcoString, DefsetId>,
     name_to_defm: HashMap<EcoString, DefmId>,
-    defm_record_names: HashSet<EcoString>,
+    /// the records that the defms outside of multiclasses define: the name of the defm (looked
+    /// up by it) followed by what a record is called in one of the multiclasses
+    defm_record_names: HashMap<EcoString, Vec<(MulticlassId, usize)>>,
     /// the beginnings of record names that are completed by a computed part (`def R#i`,
     /// `def NAME#"_"#tag` instantiated by a defm), with the record that stands for them all
     record_name_prefixes: Vec<(EcoString, Option<RecordId>)>,
@@ -154,33 +163,63 @@ impl SymbolMap {
         self.name_to_defm.get(name).copied()
     }
 
-    /// The names, relative to an instantiating defm, of the records that the multiclass and the
-    /// multiclasses it inherits from define.
-    pub fn record_names_of_multiclass(&self, multiclass_id: MulticlassId) -> Vec<(EcoString, bool)> {
-        let mut names = Vec::new();
+    /// The defm called `name` defines a record for each record of the multiclasses, named `name`
+    /// followed by what the record is called there.
+    pub fn add_defm_record_names(&mut self, name: EcoString, parent_list: Vec<(MulticlassId, usize)>) {
+        self.defm_record_names.entry(name).or_default().extend(parent_list);
+    }
+
+    /// `name` is the name of a record that a defm defines (`Whole`), or it begins like one whose
+    /// name goes on with a computed part (`Beginning` and its length, the longest one).
+    ///
+    /// The names are matched against the multiclasses, not enumerated: `defm A : M; defm B : M;`
+    /// inside a multiclass doubles their number, and so does every further level.
+    pub fn find_defm_record_name(&self, name: &EcoString) -> Option<DefmRecordName> {
+        let mut is_whole_name = false;
+        let mut beginning: Option<usize> = None;
+
+        // (multiclass, number of its names that count, offset in `name`): each is looked at once
         let mut visited = HashSet::new();
-        let mut stack = vec![multiclass_id];
-        while let Some(id) = stack.pop() {
-            if !visited.insert(id) {
+        let mut stack = Vec::new();
+        for (offset, _) in name.char_indices().chain([(name.len(), ' ')]) {
+            if let Some(parent_list) = self.defm_record_names.get(&name[..offset]) {
+                stack.extend(parent_list.iter().map(|(id, limit)| (*id, *limit, offset)));
+            }
+        }
+        while let Some((multiclass_id, limit, offset)) = stack.pop() {
+            if !visited.insert((multiclass_id, limit, offset)) {
                 continue;
             }
-            let multiclass = self.multiclass(id);
-            names.extend(multiclass.record_name_list.iter().cloned());
-            stack.extend(multiclass.parent_list.iter().copied());
+            #[cfg(feature = "verif")]
+            crate::verif::walk_step();
+            let multiclass = self.multiclass(multiclass_id);
+            let rest = &name[offset..];
+            let record_name_list = &multiclass.record_name_list;
+            for record_name in &record_name_list[..limit.min(record_name_list.len())] {
+                match record_name {
+                    RecordName::Def(def_name, true) => is_whole_name |= rest == def_name.as_str(),
+                    RecordName::Def(def_name, false) => {
+                        let len = offset + def_name.len();
+                        if len > 0 && rest.len() > def_name.len() && rest.starts_with(def_name.as_str()) {
+                            beginning = beginning.max(Some(len));
+                        }
+                    }
+                    RecordName::Defm(defm_name, parent_list) => {
+                        if rest.starts_with(defm_name.as_str()) {
+                            let offset = offset + defm_name.len();
+                            stack.extend(parent_list.iter().map(|(id, limit)| (*id, *limit, offset)));
+                        }
+                    }
+                }
+            }
+            stack.extend(multiclass.parent_list.iter().map(|id| (*id, usize::MAX, offset)));
         }
-        names
-    }
 
-    /// `name` is the name of a record that a defm defines (the name of the defm followed by what
-    /// the record is called in the multiclass).
-    pub fn add_defm_record_name(&mut self, name: EcoString) {
-        #[cfg(feature = "verif")]
-        crate::verif::walk_step();
-        self.defm_record_names.insert(name);
-    }
-
-    pub fn is_defm_record_name(&self, name: &EcoString) -> bool {
-        self.defm_record_names.contains(name)
+        if is_whole_name {
+            Some(DefmRecordName::Whole)
+        } else {
+            beginning.map(DefmRecordName::Beginning)
+        }
     }
 
     /// Records whose name begins with `prefix` exist; how the names go on is computed.
@@ -191,13 +230,14 @@ impl SymbolMap {
     }
 
     /// `name` may be the name of a record with a computed name: it begins like one (and goes
-    /// on). The longest such beginning decides; `Some(None)` if the class is not known.
-    pub fn find_record_by_name_prefix(&self, name: &EcoString) -> Option<Option<RecordId>> {
+    /// on). The longest such beginning decides: its record (`None` if the class is not known)
+    /// and its length.
+    pub fn find_record_by_name_prefix(&self, name: &EcoString) -> Option<(Option<RecordId>, usize)> {
         self.record_name_prefixes
             .iter()
             .filter(|(prefix, _)| name.len() > prefix.len() && name.starts_with(prefix.as_str()))
             .max_by_key(|(prefix, _)| prefix.len())
-            .map(|(_, record_id)| *record_id)
+            .map(|(prefix, record_id)| (*record_id, prefix.len()))
     }
 
     pub fn defm(&self, defm_id: DefmId) -> &Defm {
